@@ -253,7 +253,11 @@ def trace_part(chk, tier):
         els = [i + 1 for i, kk in enumerate(d['kind']) if kk == 'e']
         targets = [0] + ([rng.choice(els)] if rng.random() < 0.5 else [])
         jobs.append(('%s%d' % (mode, k), d, asts, targets, None))
-    lines = trace.record_select(jobs)
+    trace.SPELL_SEED = common.SEED + 13      # the texts handed to the real select are random respellings of the ASTs (harness/sel.py)
+    try:
+        lines = trace.record_select(jobs)
+    finally:
+        trace.SPELL_SEED = None
     trace.validate(chk, lines, 'Trace_Select', 'trace-lang')
     for l in lines:
         e = json.loads(l)
